@@ -102,12 +102,18 @@ kreg("k_string_nonutf8_kf", ["C09", "C10"], 1, 8, "finding witness: non-UTF-8 st
 
 # ---------------------------------------------------------------- S/T: V9 flowset
 _D9 = "v9::Data::parse / v9::OptionsData::parse replaced by models that are exact on the harness domain (every cached field length >= 8, body <= 7 bytes => no record fits, body is padding)"
-reg(["C04", "C06", "C01"], H("s9::s_v9_template", unwind=5, timeout=1200, mem_gb=10,
-    desc="v9::FlowSet::parse, template flowset vs a symbolic one-entry cache: records as sent, padding, consumption, cache post-state (last wins, others untouched)",
-    bounds={"body_bytes": "<=12 (symbolic length)", "template_records": "<=3", "fields_per_record": "<=2", "cached_templates": 1}))
-reg(["C04", "C06", "C01"], H("s9::s_v9_options_template", unwind=5, timeout=1200, mem_gb=10,
-    desc="v9::FlowSet::parse, options-template flowset: first record as sent (scope/option fields), cached",
-    bounds={"body_bytes": "<=14 (symbolic length)", "fields": "<=2"}))
+for _nm, _shape, _tier in (("2f", "1 record x 2 fields", "quick"), ("1f_pad3", "1 record x 1 field + 3 padding bytes", "thorough"),
+                          ("1f_1f", "2 records x 1 field + 2 padding bytes (ids may coincide: last wins)", "quick"),
+                          ("1f_0f_1f", "3 records with 1,0,1 fields", "thorough"),
+                          ("1f_trunc", "1 complete record + a record header announcing 9 fields with 2 bytes left", "quick"),
+                          ("only_trunc", "no complete record: header announcing 9 fields + 1 byte", "thorough")):
+    reg(["C04", "C06", "C01"], H("s9::s_v9_template_" + _nm, unwind=5, timeout=1500, mem_gb=12, tier=_tier,
+        desc="v9::FlowSet::parse, template flowset shape [%s] vs a symbolic one-entry cache: records as sent, padding, consumption, cache post-state (last wins, others untouched, incomplete record ignored)" % _shape,
+        bounds={"shape": _shape + " (written)", "symbolic": "template ids, field types/lengths, padding bytes, cached entry, probe id"}))
+for _nm, _shape, _tier in (("1_1", "1 scope + 1 option field + 2 padding", "quick"), ("2_0", "2 scope fields", "thorough"), ("0_2", "2 option fields + 3 padding", "thorough")):
+    reg(["C04", "C06", "C01"], H("s9::s_v9_options_template_" + _nm, unwind=5, timeout=1500, mem_gb=12, tier=_tier,
+        desc="v9::FlowSet::parse, options-template flowset shape [%s]: record as sent, padding, cached" % _shape,
+        bounds={"shape": _shape + " (written)", "symbolic": "template id, field types/lengths, padding bytes"}))
 reg(["C04", "C06", "C07", "C01"], H("s9::s_v9_data_dispatch", unwind=9, timeout=1200, mem_gb=10,
     desc="v9::FlowSet::parse, data id 300 vs symbolic template/options-template ids: dispatch order, consumption, unknown id => Err, caches unchanged",
     bounds={"body_bytes": "<=7", "cached": "1 template + 1 options template, symbolic ids"}, assumptions=[_D9]))
@@ -131,12 +137,21 @@ reg(["C01"], H("d9::d_v9_zero_size_template", unwind=4, timeout=1200, mem_gb=10,
 
 
 # ---------------------------------------------------------------- W: parse_bytes
+_WS = {"5_9": ("V5, V9", "quick"), "10_7_stray": ("IPFIX, V7, 1 stray byte", "quick"), "9_unknown": ("V9, version 6 + 5 bytes", "quick"),
+       "7_5cut": ("V7, V5 cut to 10 bytes", "quick"), "10_10_10": ("3 x IPFIX", "thorough"), "5_10cut": ("V5, IPFIX cut by 1 byte", "thorough"),
+       "9_9cut": ("V9, V9 cut to 3 bytes", "thorough"), "unknown_first": ("version 0xFFFF, then V5", "thorough")}
+# structural loops get their own bounds; everything else (drop glue over result vectors that are
+# empty for header-only packets, Vec growth) must exit within 1 iteration - checked by the unwinding assertions
+_WL = [(r"nfv1w|w::", 5), (r"verif_shim", 5), (r"parse_bytes", 5), (r"extend|IntoIter|into_iter|from_iter", 5)]
 _W = "V5Parser/V7Parser/V9Parser/IPFixParser::parse replaced by models exact on the domain 'header-only packets' (V5/V7/V9 count == 0, IPFIX length == 16); the models assume that domain"
-for _n, _tier, _to in ((40, "quick", 1800), (50, "thorough", 3600)):
-    reg(["C02", "C11", "C12", "C14", "C06", "C01"], H("w::w_decompose_%d" % _n, unwind=6, loops=[("w::rest", 66)], timeout=_to, mem_gb=30, tier=_tier,
-        desc="parse_bytes == reference decomposition: packets in order, at most one final Error whose remaining is the exact suffix from the version field, silent stop only at a disallowed version, unknown allowed version => UnknownVersion, caches untouched",
-        bounds={"buffer_bytes": "0..=%d (symbolic length)" % _n, "chained_packets": "<=%d" % (2 if _n == 40 else 3), "allowed_versions": "3 symbolic u16", "versions": "symbolic"},
-        assumptions=[_W]))
+for _nm, (_shape, _tier) in _WS.items():
+    reg(["C02", "C11", "C12", "C14", "C06", "C01"], H("w::w_shape_" + _nm, unwind=2, loops=_WL, timeout=1800, mem_gb=16, tier=_tier, fs=4096,
+        desc="parse_bytes on [%s] (header-only packets, modelled decoders) == reference decomposition for every allowed set: packets in order, at most one final Error whose remaining is the exact suffix from the version field, silent stop only at a disallowed version, unknown allowed version => UnknownVersion, caches untouched" % _shape,
+        bounds={"shape": _shape + " (version/count/length bytes written)", "symbolic": "all other bytes, allowed_versions = 3 symbolic u16"}, assumptions=[_W]))
+for _nm, _shape, _tier in (("5_stray", "V5 + 1 stray byte", "quick"), ("10", "IPFIX", "thorough"), ("9cut", "V9 cut by 5 bytes", "quick"), ("7_unknown", "V7, version 0x0101 + 2 bytes", "thorough")):
+    reg(["C02", "C12", "C14", "C01"], H("w::w_real_" + _nm, unwind=2, loops=_WL, timeout=1800, mem_gb=16, tier=_tier, fs=4096,
+        desc="parse_bytes on [%s] with the REAL decoders == reference decomposition for every allowed set" % _shape,
+        bounds={"shape": _shape + " (version/count/length bytes written)", "symbolic": "all other bytes, allowed_versions = 3 symbolic u16"}))
 reg(["C02"], H("w::w_empty", unwind=5, timeout=300, mem_gb=4,
     desc="parse_bytes(&[]) == [] for every allowed set", bounds={"allowed_versions": "3 symbolic u16"}))
 
@@ -243,6 +258,32 @@ reg(["C06", "C07"], H("e2e::e2e_v9_template_ipfix_data", unwind=6, timeout=3000,
     desc="a V9 template does not govern an IPFIX data set of the same id (protocol scoping)", bounds=dict(_E, bytes=56), assumptions=[_K9]))
 
 
+# ---------------------------------------------------------------- C17: parse_unknown_fields off
+_OFF = "harness crate /verif/kani_off builds /repo with default-features = false; the oracle (model) is the same source as in the default build, so a pass means identical behaviour on the covered inputs"
+for _nm, _unw, _tier, _d in (("k_unsigned", 18, "quick", "unsigned kernel"), ("k_ip4", 7, "quick", "IPv4 kernel"), ("k_vec", 7, "quick", "byte-vector kernel"),
+                             ("k_proto", 4, "thorough", "protocol kernel"), ("k_signed", 18, "thorough", "signed kernel"), ("k_ip6", 18, "thorough", "IPv6 kernel"),
+                             ("k_dur_millis", 18, "thorough", "duration(ms) kernel"), ("k_mac", 8, "thorough", "MAC kernel"), ("k_f64", 10, "thorough", "float kernel")):
+    reg(["C17"], H("k::" + _nm, unwind=_unw, feature="off", timeout=900, mem_gb=6, tier=_tier,
+        desc="feature off: %s equals the same reference as in the default build (decode, consumption, re-export)" % _d,
+        bounds=dict(_KB), assumptions=[_OFF]))
+reg(["C17"], H("k::k_unknown_off", unwind=7, feature="off", timeout=600, mem_gb=4,
+    desc="feature off: a field of unknown type never decodes, for every declared length and input", bounds=dict(_KB, MAXB=5), assumptions=[_OFF]))
+reg(["C17"], H("d9::d_v9_unknown_field_off", unwind=8, feature="off", timeout=1500, mem_gb=12,
+    desc="feature off: V9 data flowset under a template with an unknown field type yields no record",
+    bounds={"body_bytes": 6, "field_type": "every number the library maps to Unknown", "field_length": "1..=3"},
+    assumptions=[_OFF, "kernel replaced by the model 'Unknown => Err' that k::k_unknown_off shows exact"]))
+reg(["C17"], H("d10::d_ipfix_unknown_field_off", unwind=8, feature="off", timeout=1500, mem_gb=12,
+    desc="feature off: IPFIX data set under a template with an unknown field type is not decoded",
+    bounds={"body_bytes": 6, "field_type": "every number < 32768 the library maps to Unknown", "field_length": "1..=3"},
+    assumptions=[_OFF, "kernel replaced by the model 'Unknown => Err' that k::k_unknown_off shows exact"]))
+reg(["C17"], H("s9::s_v9_template_2f", unwind=5, feature="off", timeout=1500, mem_gb=12, tier="thorough",
+    desc="feature off: V9 template flowset decoding/caching equals the default build's reference", bounds={"shape": "1 record x 2 fields"}, assumptions=[_OFF]))
+reg(["C17"], H("ser::ser_v9_data", unwind=9, feature="off", timeout=2400, mem_gb=30, tier="thorough",
+    desc="feature off: V9 data flowset decode + re-export equals the default build's reference", bounds={"body_bytes": 7}, assumptions=[_OFF, _K9]))
+reg(["C17"], H("fixed::v5_common_2", unwind=4, feature="off", timeout=900, mem_gb=8, tier="thorough",
+    desc="feature off: common conversion unchanged (V5)", bounds={"records": 2}, assumptions=[_OFF]))
+
+
 def all_harnesses():
     return list(_ALL)
 
@@ -253,3 +294,12 @@ def harnesses_for(pid, tier, seed=0):
         if pid in h.props and (tier == "thorough" or h.tier == "quick"):
             out.append(h)
     return out
+reg(["X"], H("x::x1", unwind=2, loops=_WL, timeout=600, mem_gb=16))
+reg(["X"], H("x::x2", unwind=2, loops=_WL, timeout=600, mem_gb=16))
+reg(["X"], H("x::x3", unwind=2, loops=_WL, timeout=600, mem_gb=16, bytewise=64))
+reg(["X"], H("x::x4", unwind=2, loops=_WL, timeout=600, mem_gb=16))
+reg(["X"], H("x::x5", unwind=2, loops=_WL, timeout=600, mem_gb=16, bytewise=64))
+reg(["X"], H("x::x6", unwind=2, loops=_WL, timeout=600, mem_gb=16))
+reg(["X"], H("x::x7", unwind=2, loops=_WL, timeout=600, mem_gb=16))
+reg(["X"], H("w::w_real_5_9", unwind=2, loops=_WL, timeout=900, mem_gb=16))
+reg(["X"], H("w::w_real_10_7_stray", unwind=2, loops=_WL, timeout=900, mem_gb=16))
